@@ -77,6 +77,13 @@ type schemaGuards struct {
 	named  *types.Named
 	defs   map[*types.Var][]flagDef // non-copy assignments per bool field
 	copies map[*types.Var]bool      // fields copied by inherits
+	subst  map[types.Object]substArg // parameters of helpers being expanded -> the argument in the caller
+}
+
+type substArg struct {
+	fi   *core.FuncInfo
+	e    ast.Expr
+	recv string
 }
 
 func guardSchema(c *Ctx) {
@@ -341,6 +348,9 @@ func (g *schemaGuards) exprFormula(fi *core.FuncInfo, e ast.Expr, recv string, d
 			}
 		}
 	case *ast.Ident:
+		if sub, ok := g.subst[core.ObjOf(info, x)]; ok {
+			return g.exprFormula(sub.fi, sub.e, sub.recv, depth+1)
+		}
 		// local bool with a single definition
 		if o := core.ObjOf(info, x); o != nil && core.IsBool(o.Type()) {
 			defs := g.c.P.Locals(fi).Defs[o]
@@ -359,6 +369,36 @@ func (g *schemaGuards) exprFormula(fi *core.FuncInfo, e ast.Expr, recv string, d
 			return &pf{op: 'a', atom: "flag " + fv.Name()}
 		}
 	case *ast.CallExpr:
+		// allowsOrDescribes(sch.AdditionalItems): expand a single-return boolean helper function, its parameters
+		// standing for the arguments
+		if _, isSel := core.Unparen(x.Fun).(*ast.SelectorExpr); !isSel {
+			if callee := g.c.P.StaticCallee(fi, x); callee != nil {
+				if cf := g.c.P.Funcs[callee]; cf != nil && cf.Decl.Recv == nil && cf.Decl.Body != nil && len(cf.Decl.Body.List) == 1 {
+					if ret, ok := cf.Decl.Body.List[0].(*ast.ReturnStmt); ok && len(ret.Results) == 1 {
+						sig := callee.Type().(*types.Signature)
+						if g.subst == nil {
+							g.subst = map[types.Object]substArg{}
+						}
+						var bound []types.Object
+						for i := 0; i < sig.Params().Len() && i < len(x.Args); i++ {
+							po := sig.Params().At(i)
+							if _, busy := g.subst[po]; busy {
+								continue // recursion: leave the inner occurrence opaque
+							}
+							g.subst[po] = substArg{fi, x.Args[i], recv}
+							bound = append(bound, po)
+						}
+						res := g.exprFormula(cf, ret.Results[0], "", depth+1)
+						for _, po := range bound {
+							delete(g.subst, po)
+						}
+						if res != nil {
+							return res
+						}
+					}
+				}
+			}
+		}
 		// a.isObjectType(): expand a single-return boolean method of the same receiver
 		if sel, ok := x.Fun.(*ast.SelectorExpr); ok && exprStr(sel.X) == recv && len(x.Args) == 0 {
 			if callee := g.c.P.StaticCallee(fi, x); callee != nil {
@@ -386,6 +426,10 @@ func (g *schemaGuards) canon(fi *core.FuncInfo, e ast.Expr, recv string) string 
 	if p := g.c.P.PathOf(fi, e, true); p != nil && p.Root != nil {
 		if id, ok := rootOfRecv(fi); ok && p.Root == info.Defs[id] {
 			return "$" + p.StepsString()
+		}
+		// a parameter of a helper being expanded stands for the caller's argument
+		if sub, ok := g.subst[p.Root]; ok {
+			return g.canon(sub.fi, sub.e, sub.recv) + p.StepsString()
 		}
 	}
 	switch x := e.(type) {
@@ -530,7 +574,7 @@ var docRules = []docRule{
 
 func guardDocRules(c *Ctx) {
 	o := c.P.Pkg("").Types.Scope().Lookup("AnalyzedSchema")
-	cx := c.root("AnalyzedSchema.isAnalyzedAsComplex")
+	cx := c.complexFn()
 	if o == nil || cx == nil || len(cx.Decl.Body.List) != 1 {
 		c.S.Undecided("C20", "GUARD-DOCRULES", "anchor", "-", "AnalyzedSchema / isAnalyzedAsComplex not found in the expected form")
 		return
